@@ -8,6 +8,12 @@ open Wencry Wencry.Model.Base64
 
 theorem encode_is_rfc4648 (bs : Bytes) : hexToBase64 bs = Spec.Base64.encode bs ++ [0] := Proofs.Base64.hexToBase64_eq bs
 theorem decode_inverts_encode (bs : Bytes) : base64ToHex (Spec.Base64.encode bs) = .ok (some bs) := Proofs.Base64.base64ToHex_encode bs
+/-- hence the encoder loses nothing: two byte strings with the same encoding are equal (the key printed at encryption time identifies
+    the key bytes) -/
+theorem encode_injective (b1 b2 : Bytes) (h : Spec.Base64.encode b1 = Spec.Base64.encode b2) : b1 = b2 := by
+  have h1 := decode_inverts_encode b1
+  rw [h, decode_inverts_encode b2] at h1
+  simpa using h1.symm
 
 /-- the validator accepts exactly: 24 characters, 22 from the alphabet followed by "==" (the 24-character encodings of 16-byte
     values; non-canonical trailing bits in the 22nd character are tolerated and decode to 16 bytes all the same) -/
